@@ -4,6 +4,7 @@ EXTENDS FilterC06
 C06Thorough == Keep(GridA(Shapes, VarFull)
                     \cup PairsSS(1..8, BSrcQ \cup {Fin(<<2, 1, 1>>)})
                     \cup PairsSL(1..8, 1..4, BSrcF)
+                    \cup Powers(1..8, BSrcQ \cup {Fin(<<2, 1, 1>>)})
                     \cup Scalings(1..8, BSrcF)
                     \cup Triples({2, 5, 6}, {Per(<<2, -1, 1>>), Fin(<<-1, 2, 1>>)})
                     \cup Triples({1, 4}, {Fin(<<2, -1>>)}))
